@@ -15,8 +15,8 @@ from collections import Counter
 from concurrent.futures import ProcessPoolExecutor
 
 VERIF = os.path.dirname(os.path.dirname(os.path.abspath(__file__)))
-EVIDENCE_DIR = os.path.join(VERIF, "evidence")
-REPLAY_DIR = os.path.join(VERIF, "replays")
+EVIDENCE_DIR = os.environ.get("VERIF_EVIDENCE_DIR", os.path.join(VERIF, "evidence"))
+REPLAY_DIR = os.environ.get("VERIF_REPLAY_DIR", os.path.join(VERIF, "replays"))
 KNOWN = os.path.join(VERIF, "known_findings.json")
 CASE_TIMEOUT = float(os.environ.get("VERIF_CASE_TIMEOUT", "60"))
 
@@ -50,7 +50,17 @@ def _run_chunk(args):
                 out.append(pack_case(idx, cr))
             signal.setitimer(signal.ITIMER_REAL, 0)
         except CaseTimeout:
-            out.append({"idx": idx, "timeout": True})
+            handler = spec.get("on_timeout")
+            if handler is None:
+                out.append({"idx": idx, "timeout": True})
+            else:
+                try:
+                    signal.setitimer(signal.ITIMER_REAL, 20 * CASE_TIMEOUT)
+                    out.append(pack_case(idx, handler(seed, idx, tier)))
+                except CaseTimeout:
+                    out.append({"idx": idx, "timeout": True})
+                except Exception:
+                    out.append({"idx": idx, "error": traceback.format_exc()[-4000:]})
         except Exception:
             signal.setitimer(signal.ITIMER_REAL, 0)
             out.append({"idx": idx, "error": traceback.format_exc()[-4000:]})
